@@ -116,9 +116,11 @@ def resolve_bound_methods(r, s, val):
                 if ms.is_generator:
                     return t
                 lamid = ("#meth", m)
-                params = tuple(ms.params[1:])
+                static = r.P.functions[m].is_static
+                params = tuple(ms.params if static else ms.params[1:])
                 body = subst(ms.ret, {("param", p[0]): ("lparam", lamid, p[0]) for p in params})
-                body = subst(body, {("param", ms.params[0][0]): selfp})
+                if not static:
+                    body = subst(body, {("param", ms.params[0][0]): selfp})
                 return ("lam", lamid, params, rewrite(body, rw))
         return t
     return rewrite(val, rw)
@@ -343,10 +345,12 @@ def run(r):
     eq = Equiv(rewrites=std_rewrites() + [cdist_rewrite], modelled={"rapidfuzz.process.cdist", "scipy.spatial.distance.squareform"} | TRIANGLE_SELECTORS)
     compare_function(r, "C08-CD", L + "WeightedLevenshtein.calc_cdist_matrix", SPEC, "cdist[i, j] = scorer(anchors[i], comparisons[j]): anchors first, no narrow dtype, no cut-off", fname="calc_cdist_matrix", eq=eq, key="cdist call")
     compare_function(r, "C08-PV", L + "WeightedLevenshtein.calc_pdist_vector", SPEC, "pdist vector = squareform(checks=False) of the self cdist of one and the same collection", fname="calc_pdist_vector", eq=eq, key="pdist vector")
-    compare_function(r, "C08-LV", L + "Levenshtein.calc_cdist_matrix", SPEC, "Levenshtein delegates calc_cdist_matrix to its WeightedLevenshtein", fname="lev_cdist", eq=eq, key="delegate cdist")
-    compare_function(r, "C08-LV", L + "Levenshtein.calc_pdist_vector", SPEC, "Levenshtein delegates calc_pdist_vector to its WeightedLevenshtein", fname="lev_pdist", eq=eq, key="delegate pdist")
     s = r.A.summary(L + "Levenshtein.__init__")
     v = s.env.get(("@attr", ("param", "self"), "_weighted_levenshtein"))
+    if v is not None:
+        # (without the delegate attribute the class was restructured: the delegation rules have nothing to say, see below)
+        compare_function(r, "C08-LV", L + "Levenshtein.calc_cdist_matrix", SPEC, "Levenshtein delegates calc_cdist_matrix to its WeightedLevenshtein", fname="lev_cdist", eq=eq, key="delegate cdist")
+        compare_function(r, "C08-LV", L + "Levenshtein.calc_pdist_vector", SPEC, "Levenshtein delegates calc_pdist_vector to its WeightedLevenshtein", fname="lev_pdist", eq=eq, key="delegate pdist")
     vv = strip_all(v) if v is not None else None
     okd = vv is not None and head(vv) == "call" and vv[1] == ("glob", L + "WeightedLevenshtein") and len(vv[2]) <= 3 and all(is_const(a, 1) for a in vv[2]) \
         and all(k in ("insertion_weight", "deletion_weight", "substitution_weight") and is_const(x, 1) for k, x in vv[3])
